@@ -70,15 +70,21 @@ package netpoll
 //@   ensures (err == nil) == (p != nil)
 //@   ensures p != nil ==> fresh(p#val) && !prun[p#val] && !pclosed[p#val]
 
+// pollers started / stopped again by the current call of Run (ghost)
+//@ ghost global runOpened int
+//@ ghost global runClosed int
 //@ func (*manager).Run
-//@   property C18
+//@   property C15 C18
 //@   requires mbase(m)
 //@   ensures err == nil ==> len(m.polls) == m.numLoops && pollsok(m.polls) && lbsync(m) && lbkind(m) && m.numLoops >= 1 && m.status == old(m.status)
 //@   ensures err == nil ==> forall i int :: m.numLoops <= i && i < old(len(m.polls)) ==> pclosed[old(m.polls[i])#val]
 //@   ensures err == nil ==> forall i int :: 0 <= i && i < old(len(m.polls)) && i < m.numLoops ==> m.polls[i] == old(m.polls[i])
+//@   ensures err != nil ==> runClosed == runOpened
 //@   modifies anything
 //@   rely manager.numLoops: now == was
-//@   ghost after call invoke.Wait#1: prun[poll#val] = true
+//@   ghost at entry: runOpened = 0; runClosed = 0
+//@   ghost after call invoke.Wait#1: prun[poll#val] = true; runOpened = runOpened + 1
+//@   ghost after call invoke.Close#2: runClosed = runClosed + 1
 //@   loop 1 invariant lbkind(m) && lbsync(m) && numLoops <= idx && idx <= len(m.polls) && sameslice(m.polls, old(m.polls)) && len(polls) == numLoops && fresh(polls) && numLoops >= 1
 //@   loop 1 invariant forall i int :: 0 <= i && i < numLoops ==> polls[i] == old(m.polls[i])
 //@   loop 1 invariant forall i int :: numLoops <= i && i < idx ==> pclosed[old(m.polls[i])#val]
@@ -89,6 +95,11 @@ package netpoll
 //@   loop 2 invariant forall i int :: 0 <= i && i < len(m.polls) ==> polls[i] == old(m.polls[i])
 //@   loop 2 invariant forall i int :: 0 <= i && i < idx ==> polls[i] != nil && prun[polls[i]#val]
 //@   loop 2 invariant forall i int, j int :: 0 <= i && i < j && j < idx ==> polls[i]#val != polls[j]#val
+//@   loop 2 invariant runOpened == idx - len(m.polls) && runClosed == 0
+//@   loop 3 invariant len(m.polls) <= i && i <= idx && idx < numLoops && len(polls) == numLoops && fresh(polls) && sameslice(m.polls, old(m.polls)) && err != nil
+//@   loop 3 invariant runOpened == idx - len(m.polls) && runClosed == i - len(m.polls)
+//@   loop 3 invariant forall j int :: len(m.polls) <= j && j < idx ==> polls[j] != nil
+//@   loop 3 invariant forall j int :: len(m.polls) <= j && j < i ==> pclosed[polls[j]#val]
 
 //@ func (*manager).Pick
 //@   property C18
